@@ -15,6 +15,14 @@ package main
 //                    | pstats:… | ptc:…   the same command behind `| eval verif_pp=1`: the engine then runs it in the stats /
 //                                         timechart PROCESSOR of the pipeline instead of the search stage (same meaning, C06)
 //                    | where:<field>:<op>:<lit>   `| where <field><op><lit>` (answer: ids)
+//                    | regex:<field>:<eq|ne>:<hexglob>  `| regex <field>="<re>"` / `!=`: the glob as a regular expression (a*c = ^a.*c$, *b* = b), exact case
+//                    | win:<field>:<lit+lit…>     `| where in(<field>, …)`
+//                    | tm:<startSec>:<endSec>     `| earliest=<MM/DD/YYYY:HH:MM:SS> latest=…` behind the filter; the request itself asks for a wide range
+//                    | sql                        the filter (one comparison) is sent as `SELECT * FROM <index> WHERE …` through the SQL front end
+//                    | head:<n> | tail:<n> | dedup:<field> | top:<field>:<limit|-> | rare:<field>:<limit|->
+//            tv     ::= … | r<n>.<hexunit>  a string of n bytes: the unit repeated (long values)
+//            a field name whose dotted components are all numbers below an object key (a.0, a.1, o.2.x) is sent as a JSON ARRAY
+//            by the events that are sent nested (even vid): the engine flattens arrays to these names
 // Exec runs the history and the queries in a fresh worker process (one dataset per process) through
 // the public entry points and prints one canonical segment per query; the Lean Oracle prints the
 // SPECIFICATION's answer for the same line; lib/runner.py compares them (mode e2e).
@@ -40,10 +48,16 @@ func init() {
 		p := p
 		gen := func(r *rand.Rand, n int, tier string) []string { return genE2E(r, n, tier, p) }
 		rule := "datasets of 1..40 events over typed columns (int, dyadic decimal, mixed, text, numeric text, sparse, bool, late) × random batch/flush/rotate histories × queries of profile " + p + "; each case runs in its own engine process; non-trivial = ≥3 events and ≥1 query"
+		if p == "c05" {
+			rule += "; head / tail / dedup / top / rare behind the search over several blocks and segments (ties, events lacking the field, a filter in front)"
+		}
+		if p == "c01" {
+			rule += "; arrays (scalars of mixed kinds, objects and arrays inside) sent as JSON arrays, values of 255 … 60000 bytes, events with 300–800 columns"
+		}
 		if p == "c02" || p == "c03" {
 			rule += "; literal and column of different kinds by construction: quoted numbers against numbers, numeric text and text, text against numbers and booleans, wildcards against numbers, numeric text at the edges of the number grammar (+5, 1E2, 5., .5, 1e, -, e5, 0x10, nan, 1_000), a column mixing numbers, numeric text and text per block, free-text terms that are numbers, also under NOT alone and inside AND / OR; case-sensitive words and phrases (CASE(…)) and phrases over values in which the word first occurs inside a longer token and later as a whole word; multi-word values with capitals, never stored in lower case, searched by full value and phrase in another case"
 			if p == "c02" {
-				rule += "; every single numeric comparison once in the search clause and once as a where stage"
+				rule += "; every single numeric comparison once in the search clause and once as a where stage; wildcards in front / in the middle / at both ends of a value; single comparisons also through the SQL front end; `| regex` with anchored, prefix, suffix and infix patterns; `| where in(f, …)`; the time range given as earliest= / latest= in the query text"
 			}
 		}
 		if p == "c01" || p == "c03" || p == "c04" {
@@ -234,6 +248,42 @@ func genEvent(r *rand.Rand, vid int, ts uint64, profile string, late bool) e2eEv
 		if r.Intn(5) == 0 { // high-cardinality column
 			add("hc", "s"+hexs(fmt.Sprintf("id-%d-%d", vid, r.Intn(1000000))))
 		}
+		if r.Intn(5) == 0 {
+			// arrays (sent as JSON arrays by the events that are sent nested): scalars of mixed kinds, objects inside, nested arrays
+			n := 1 + r.Intn(3)
+			for k := 0; k < n; k++ {
+				switch r.Intn(4) {
+				case 0:
+					add(fmt.Sprintf("arr.%d", k), fmt.Sprintf("i%d", r.Intn(50)))
+				case 1:
+					add(fmt.Sprintf("arr.%d", k), "s"+hexs(vocab[r.Intn(len(vocab))]))
+				case 2:
+					add(fmt.Sprintf("arr.%d", k), "d"+dyadic(r))
+				default:
+					add(fmt.Sprintf("arr.%d", k), fmt.Sprintf("b%d", r.Intn(2)))
+				}
+			}
+			if r.Intn(2) == 0 {
+				add("oa.0.x", fmt.Sprintf("i%d", r.Intn(9)))
+				add("oa.0.y", "s"+hexs("p"))
+				add("oa.1.x", fmt.Sprintf("i%d", r.Intn(9)))
+				if r.Intn(2) == 0 {
+					add("oa.2.0", fmt.Sprintf("i%d", r.Intn(9)))
+					add("oa.2.1", "s"+hexs("q"))
+				}
+			}
+		}
+		if r.Intn(12) == 0 {
+			// long values, up to the record size limit (63000 bytes for the whole event), around the length encodings
+			n := []int{255, 256, 257, 1000, 4095, 4096, 32767, 32768, 50000, 60000}[r.Intn(10)]
+			add("lv", fmt.Sprintf("r%d.%s", n, hexs([]string{"ab", "x", "long value ", "0123456789"}[r.Intn(4)])))
+		}
+		if r.Intn(40) == 0 {
+			// an event with several hundred columns
+			for k, n := 0, 300+r.Intn(500); k < n; k++ {
+				add(fmt.Sprintf("c%03d", k), fmt.Sprintf("i%d", k%7))
+			}
+		}
 	}
 	return e
 }
@@ -288,6 +338,15 @@ func genCmpK(r *rand.Rand, profile string, k int) string {
 	case 4, 5:
 		w := vocab[r.Intn(len(vocab))]
 		kind := "s"
+		if (profile == "c02" || profile == "c03") && r.Intn(4) == 0 {
+			// wildcards in front, in the middle and at both ends of a value (dictionary or plain column, as the cfg card= decides)
+			w = []string{"a*c", "*b*", "*bc", "a*", "*o*b*", "f*r", "*ef", "a*d*f", "abc*def", "*c d*", "h*o", "H*O", "*", "z*z", "x*", "*x", "ab*ef", "*oo ba*"}[r.Intn(18)]
+			kind = []string{"s", "w"}[r.Intn(2)]
+			if strings.Contains(w, " ") {
+				kind = "s"
+			}
+			return fmt.Sprintf("c:s:%s:%s%s", ops[r.Intn(2)], kind, hexs(w))
+		}
 		if !strings.Contains(w, " ") && r.Intn(2) == 0 {
 			kind = "w"
 			if r.Intn(3) == 0 {
@@ -545,6 +604,31 @@ func genE2E(r *rand.Rand, n int, tier, profile string) []string {
 				}
 				toks = append(toks, fmt.Sprintf("q/0/1000/%d/%d/%s", s, e, fl))
 				if profile == "c02" {
+					if _, ok := e2eFilterToSQL(fl); ok && r.Intn(3) == 0 {
+						// the same comparison through the SQL front end
+						toks = append(toks, fmt.Sprintf("q/0/1000/%d/%d/%s/sql", s, e, fl))
+					}
+					switch r.Intn(14) {
+					case 0: // `| regex`: anchored, prefix, suffix and infix patterns over text columns, exact case
+						col := []string{"s", "s", "w", "msg", "g"}[r.Intn(5)]
+						g := []string{"a*c", "abc", "*b*", "ab*", "*z", "A*", "foo*", "*o ba*", "x", "Hello", "hel*", "*timeout", "timeout*", "*Timeout*", "*refused*", "re*", "*e*e*", "ABC", "abc def"}[r.Intn(19)]
+						toks = append(toks, fmt.Sprintf("q/0/1000/%d/%d/all/regex:%s:%s:%s", s, e, col, []string{"eq", "eq", "ne"}[r.Intn(3)], hexs(g)))
+					case 1: // `| where in(f, …)`
+						col := []string{"i", "i", "m", "ns", "f", "x"}[r.Intn(6)]
+						var ls []string
+						for k, n := 0, 1+r.Intn(3); k < n; k++ {
+							if r.Intn(3) == 0 {
+								ls = append(ls, "d"+dyadic(r))
+							} else {
+								ls = append(ls, fmt.Sprintf("i%d", r.Intn(14)-2))
+							}
+						}
+						toks = append(toks, fmt.Sprintf("q/0/1000/%d/%d/all/win:%s:%s", s, e, col, strings.Join(ls, "+")))
+					case 2: // the time range in the query text (whole seconds), the request asks for a wide range
+						a := int64(e2eBase/1000) + int64(r.Intn(8)) - 1
+						b := a + int64(r.Intn(int(span/1000)+3))
+						toks = append(toks, fmt.Sprintf("q/0/1000/%d/%d/%s/tm:%d:%d", s, e, fl, a, b))
+					}
 					// the same comparison once in the search clause (above) and once as a where stage (C02: they agree on numeric fields)
 					if p := strings.Split(fl, ":"); len(p) == 4 && p[0] == "c" && !strings.Contains(fl, ",") && (p[3][0] == 'i' || p[3][0] == 'd' || (p[3][0] == 's' && e2eNumStrRe.MatchString(unhexs(p[3][1:])))) && r.Intn(2) == 0 {
 						if p[3][0] != 's' || p[2] == "eq" || p[2] == "ne" {
@@ -583,6 +667,30 @@ func genE2E(r *rand.Rand, n int, tier, profile string) []string {
 				toks = append(toks, fmt.Sprintf("q/0/1000/%d/%d/%s/stats:%s:%s", s, e, f, strings.Join(aggs, "+"), by))
 			case "c05":
 				size := 1 + r.Intn(12)
+				if k := r.Intn(5); k < 2 {
+					// head / tail / dedup / top / rare behind the search, over whatever blocks and segments the history made
+					f := "all"
+					if r.Intn(3) == 0 {
+						f = fmt.Sprintf("c:i:%s:i%d", []string{"lt", "ge", "gt", "le"}[r.Intn(4)], r.Intn(20))
+					}
+					var st string
+					switch r.Intn(6) {
+					case 0, 1:
+						st = fmt.Sprintf("head:%d", size)
+					case 2:
+						st = fmt.Sprintf("tail:%d", size)
+					case 3:
+						st = "dedup:" + []string{"s", "s", "x", "g", "b", "i"}[r.Intn(6)]
+					default:
+						lim := "-"
+						if r.Intn(6) == 0 {
+							lim = strconv.Itoa(1 + r.Intn(4))
+						}
+						st = fmt.Sprintf("%s:%s:%s", []string{"top", "top", "rare"}[r.Intn(3)], []string{"s", "s", "x", "g", "i", "b"}[r.Intn(6)], lim)
+					}
+					toks = append(toks, fmt.Sprintf("q/0/1000/%d/%d/%s/%s", start, end, f, st))
+					continue
+				}
 				if r.Intn(2) == 0 {
 					toks = append(toks, fmt.Sprintf("q/0/1000/%d/%d/all/pages:%d", start, end, size))
 				} else {
@@ -1103,6 +1211,18 @@ func tvToJSON(tv string) (string, bool) {
 		return "false", true
 	case 'z':
 		return "null", true
+	case 'r':
+		p := strings.SplitN(tv[1:], ".", 2)
+		if len(p) != 2 {
+			return "", false
+		}
+		n, err := strconv.Atoi(p[0])
+		u, err2 := hex.DecodeString(p[1])
+		if err != nil || err2 != nil || len(u) == 0 || n < 0 || n > 200000 {
+			return "", false
+		}
+		j, _ := json.Marshal(strings.Repeat(string(u), n/len(u)+1)[:n])
+		return string(j), true
 	}
 	return "", false
 }
@@ -1144,6 +1264,20 @@ func eventJSON(vid int, ts uint64, fields []kv, nest bool) (string, bool) {
 	render = func(n *node) string {
 		if len(n.children) == 0 {
 			return n.leaf
+		}
+		// children 0, 1, …, k-1 in this order: a JSON array
+		isArr := true
+		for i, k := range n.order {
+			if k != strconv.Itoa(i) {
+				isArr = false
+			}
+		}
+		if isArr {
+			var ps []string
+			for _, k := range n.order {
+				ps = append(ps, render(n.children[k]))
+			}
+			return "[" + strings.Join(ps, ",") + "]"
 		}
 		var ps []string
 		for _, k := range n.order {
@@ -1250,6 +1384,52 @@ type e2eQuery struct {
 	span       uint64 // tc: cell width in ms
 	proc       bool   // pstats / ptc
 	where      bool
+	sql        bool // the filter goes through the SQL front end
+	tmRange    bool // the time range is given in the query text (`| earliest=… latest=…`)
+	tags       []string
+}
+
+// a glob (`*` wildcards, literal text otherwise) as a regular expression: anchored where the glob does not start / end with `*`
+func e2eGlobToRegex(g string) string {
+	parts := strings.Split(g, "*")
+	for i, p := range parts {
+		parts[i] = regexp.QuoteMeta(p)
+	}
+	re := strings.Join(parts, ".*")
+	if !strings.HasPrefix(g, "*") {
+		re = "^" + re
+	} else {
+		re = strings.TrimPrefix(re, ".*")
+	}
+	if !strings.HasSuffix(g, "*") {
+		re += "$"
+	} else {
+		re = strings.TrimSuffix(re, ".*")
+	}
+	return re
+}
+
+// one comparison as an SQL condition (numbers, and text without wildcard for = / !=)
+func e2eFilterToSQL(rpn string) (string, bool) {
+	p := strings.Split(rpn, ":")
+	if len(p) != 4 || p[0] != "c" || strings.Contains(rpn, ",") || p[3] == "" {
+		return "", false
+	}
+	op, ok := map[string]string{"eq": "=", "ne": "!=", "lt": "<", "le": "<=", "gt": ">", "ge": ">="}[p[2]]
+	if !ok {
+		return "", false
+	}
+	switch p[3][0] {
+	case 'i', 'd':
+		return p[1] + " " + op + " " + p[3][1:], true
+	case 's':
+		b, err := hex.DecodeString(p[3][1:])
+		if err != nil || len(b) == 0 || strings.ContainsAny(string(b), "'\"*\\ ") || (p[2] != "eq" && p[2] != "ne") {
+			return "", false
+		}
+		return p[1] + " " + op + " '" + string(b) + "'", true
+	}
+	return "", false
 }
 
 func parseE2EQuery(tok string) (q e2eQuery, ok bool) {
@@ -1286,6 +1466,74 @@ func parseE2EQuery(tok string) (q e2eQuery, ok bool) {
 			if q.pageSize, err = strconv.Atoi(sp[1]); err != nil || q.pageSize < 1 {
 				return
 			}
+		case sp[0] == "regex" && len(sp) == 4:
+			g, e1 := hex.DecodeString(sp[3])
+			if e1 != nil || len(g) == 0 || sp[1] == "" || (sp[2] != "eq" && sp[2] != "ne") || strings.ContainsAny(string(g), "\"\\") {
+				return q, false
+			}
+			q.spl += " | regex " + sp[1] + map[string]string{"eq": "=", "ne": "!="}[sp[2]] + `"` + e2eGlobToRegex(string(g)) + `"`
+			q.tags = append(q.tags, "regex-stage")
+		case sp[0] == "win" && len(sp) == 3:
+			var ls []string
+			for _, l := range strings.Split(sp[2], "+") {
+				lit, ok1 := litToSPL(l)
+				if !ok1 {
+					return q, false
+				}
+				ls = append(ls, lit)
+			}
+			if sp[1] == "" {
+				return q, false
+			}
+			q.spl += " | where in(" + sp[1] + ", " + strings.Join(ls, ", ") + ")"
+			q.where = true
+			q.tags = append(q.tags, "where-in-list")
+		case sp[0] == "tm" && len(sp) == 3:
+			a, e1 := strconv.ParseInt(sp[1], 10, 64)
+			b, e2 := strconv.ParseInt(sp[2], 10, 64)
+			if e1 != nil || e2 != nil || a < 0 || b < 0 {
+				return q, false
+			}
+			const layout = "01/02/2006:15:04:05"
+			q.spl += " | earliest=" + time.Unix(a, 0).Format(layout) + " latest=" + time.Unix(b, 0).Format(layout)
+			q.tmRange = true
+			q.tags = append(q.tags, "earliest/latest-in-query-text")
+		case st == "sql":
+			cond, ok1 := e2eFilterToSQL(p[5])
+			if !ok1 || len(p) != 7 {
+				return q, false
+			}
+			q.spl = "SELECT * FROM vidx WHERE " + cond
+			q.sql = true
+			q.tags = append(q.tags, "sql-front-end")
+		case (sp[0] == "head" || sp[0] == "tail") && len(sp) == 2:
+			n, e1 := strconv.Atoi(sp[1])
+			if e1 != nil || n < 1 {
+				return q, false
+			}
+			q.spl += fmt.Sprintf(" | %s %d", sp[0], n)
+			if sp[0] == "tail" {
+				q.kind = "tail"
+			}
+			q.tags = append(q.tags, sp[0]+"-command")
+		case sp[0] == "dedup" && len(sp) == 2 && sp[1] != "":
+			q.spl += " | dedup " + sp[1]
+			q.kind = "dedup"
+			q.tags = append(q.tags, "dedup-command")
+		case (sp[0] == "top" || sp[0] == "rare") && len(sp) == 3 && sp[1] != "":
+			lim := ""
+			if sp[2] != "-" {
+				n, e1 := strconv.Atoi(sp[2])
+				if e1 != nil || n < 1 {
+					return q, false
+				}
+				lim = fmt.Sprintf(" limit=%d", n)
+				q.tags = append(q.tags, "top/rare-with-limit")
+			}
+			q.spl += " | " + sp[0] + lim + " " + sp[1]
+			q.kind = "top"
+			q.bys = []string{sp[1]}
+			q.tags = append(q.tags, sp[0]+"-command")
 		case sp[0] == "where" && len(sp) == 4:
 			lit, ok1 := litToSPL(sp[3])
 			op, ok2 := map[string]string{"eq": "=", "ne": "!=", "lt": "<", "le": "<=", "gt": ">", "ge": ">="}[sp[2]]
@@ -1588,8 +1836,19 @@ func execE2ELayout(f []string) Result {
 			}
 			nAnswers += np
 		} else {
-			fmt.Fprintf(&in, "q %d %d %d %d %s\n", q.from, q.size, q.start, q.end, hexs(q.spl))
+			lang := ""
+			if q.sql {
+				lang = " sql"
+			}
+			start, end := q.start, q.end
+			if q.tmRange {
+				start, end = e2eBase-100000000, e2eBase+100000000 // the range comes from the query text
+			}
+			fmt.Fprintf(&in, "q %d %d %d %d %s%s\n", q.from, q.size, start, end, hexs(q.spl), lang)
 			nAnswers++
+		}
+		for _, t := range q.tags {
+			tagSet[t] = true
 		}
 	}
 	// run the worker
@@ -1705,7 +1964,22 @@ func execE2ELayout(f []string) Result {
 		}
 		recs, _ := resp["recs"].([]interface{})
 		switch q.kind {
-		case "ids", "recs":
+		case "top":
+			// rows in the order of the answer: <hexkey>=<count>;<percent>
+			meas, _ := resp["measure"].([]interface{})
+			var rows []string
+			for _, mr := range meas {
+				m, _ := mr.(map[string]interface{})
+				gv, _ := m["GroupByValues"].([]interface{})
+				key := "?"
+				if len(gv) == 1 {
+					key = fmt.Sprint(gv[0])
+				}
+				mv, _ := m["MeasureVal"].(map[string]interface{})
+				rows = append(rows, hexs(key)+"="+ratOf(mv["count"])+";"+ratOf(mv["percent"]))
+			}
+			segs = append(segs, "kind=top rows="+strings.Join(rows, ","))
+		case "ids", "recs", "tail", "dedup":
 			var parts []string
 			for _, r := range recs {
 				m, _ := r.(map[string]interface{})
@@ -1717,7 +1991,7 @@ func execE2ELayout(f []string) Result {
 				if v, ok := m["timestamp"].(json.Number); ok {
 					ts = v.String()
 				}
-				if q.kind == "ids" {
+				if q.kind != "recs" {
 					parts = append(parts, vid+"@"+ts)
 					continue
 				}
